@@ -129,6 +129,7 @@ fn menu() -> Vec<(&'static str, &'static str, &'static str, &'static str, Value,
         ("A-pl-b100", A, "m.room.power_levels", "", plj(&p5), Some(p5)),
         ("B-jr-knock", B, "m.room.join_rules", "", json!({"join_rule": "knock"}), None),
         ("C-jr-private", C, "m.room.join_rules", "", json!({"join_rule": "private"}), None),
+        ("A-jr-invite", A, "m.room.join_rules", "", json!({"join_rule": "invite"}), None),
     ]
 }
 
@@ -393,7 +394,10 @@ fn run_rules(vname: &'static str, rules: AuthorizationRules, thorough: bool) -> 
         }
     }
     shapes.extend(shared);
-    for shape in &shapes {
+    // with a "demotion prelude" (the base then ends with a join-rule change by B followed by B's demotion: an unconflicted
+    // power-levels event under which an event of the conflicted set is no longer allowed) for the two-fork shapes
+    let runs: Vec<(&Vec<Vec<usize>>, bool)> = shapes.iter().map(|s| (s, false)).chain(shapes.iter().filter(|s| s.len() == 2 && s.iter().all(|f| f.len() == 1)).map(|s| (s, true))).collect();
+    for (shape, prelude) in runs {
         for &tsmode in &timestamp_modes {
             let mut b = Builder { w: World { events: BTreeMap::new() }, n: 0 };
             let mut st = BTreeMap::new();
@@ -405,6 +409,11 @@ fn run_rules(vname: &'static str, rules: AuthorizationRules, thorough: bool) -> 
                 ("b-join", B, "m.room.member", B, json!({"membership": "join"}), None),
                 ("c-join", C, "m.room.member", C, json!({"membership": "join"}), None),
             ];
+            let mut base = base;
+            if prelude {
+                base.push(("b-jr-knock", B, "m.room.join_rules", "", json!({"join_rule": "knock"}), None));
+                base.push(("a-pl-b0", A, "m.room.power_levels", "", pl_of(&[(A, 100), (B, 0), (C, 75)]).json(), Some(pl_of(&[(A, 100), (B, 0), (C, 75)]))));
+            }
             let mut tip = String::new();
             for (name, s, t, k, c, p) in base {
                 let (id, st2) = b.add(&rules, &tip, &st, name, s, t, k, c, p, true).unwrap();
@@ -529,12 +538,17 @@ fn run_rules(vname: &'static str, rules: AuthorizationRules, thorough: bool) -> 
                     if other.as_ref() != Some(&got) {
                         fail(&mut f_det, describe(&json!("another thread computes a different state")));
                     }
-                    // a single state set, or identical ones, come back unchanged
+                    // a single state set, or identical ones, come back unchanged - also when the event store knows none, or
+                    // only some, of the events (fetch_event may return None)
+                    let empty_store: HashMap<OwnedEventId, Pdu> = HashMap::new();
+                    let partial_store: HashMap<OwnedEventId, Pdu> = pdus.iter().filter(|(id, _)| id.as_str().len() % 2 == 0).map(|(k, v)| (k.clone(), v.clone())).collect();
                     for t in &tips {
                         for copies in [1usize, 2] {
                             let sets: Vec<_> = std::iter::repeat(t.clone()).take(copies).collect();
-                            if real_resolve(&rules, &pdus, &w, &sets).ok().as_ref() != Some(t) {
-                                fail(&mut f_single, describe(&json!(format!("{copies} identical state set(s) are not returned unchanged"))));
+                            for (store, sname) in [(&pdus, "the full event store"), (&empty_store, "an empty event store"), (&partial_store, "a partial event store")] {
+                                if real_resolve(&rules, store, &w, &sets).ok().as_ref() != Some(t) {
+                                    fail(&mut f_single, describe(&json!(format!("{copies} identical state set(s) are not returned unchanged with {sname}"))));
+                                }
                             }
                         }
                     }
